@@ -76,9 +76,17 @@ package liveness
 // a verdict is probed only when neither cache answered, and is stored in the cache matching the measured verdict
 //@ func (blt *CachedLivenessTester) PhantomIsLive(addr string, port uint16) (bool, error)
 //@   requires blt != nil
-//@   atcall dynamic#1 before: assert @C18: !live && err == nil
-//@   atcall cache).Add#1 before: assert @C18: isLive && blt.ipCacheLive != nil
-//@   atcall cache).Add#2 before: assert @C18: !isLive && blt.ipCacheNonLive != nil
+// (stated over the results of the real calls, not over local names: a refactoring keeps the clauses in force)
+//@   atcall phantomLookup after: snap hit := res0
+//@   atcall phantomLookup after: snap hitErr := res1
+//@   atcall dynamic#1 before: assert @C18: defined(hit) && !hit && hitErr == nil
+//@   atcall dynamic#1 after: snap measured := res0
+// a verdict is put into a cache only after it was measured by this call (a cache hit is never stored again - that would
+// restart its lifetime), and into the cache that matches it
+//@   atcall cache).Add before: assert @C18: defined(measured) && arg0 != nil && (arg0 == blt.ipCacheLive || arg0 == blt.ipCacheNonLive) && (measured ==> arg0 == blt.ipCacheLive) && (!measured ==> arg0 == blt.ipCacheNonLive)
+// what is answered is the cached verdict on a hit and the measured one otherwise
+//@   ensures @C18: defined(measured) ==> result0 == measured
+//@   ensures @C18: !defined(measured) ==> defined(hit) && result0 == hit && result1 == hitErr
 //@   ensures @C18: result1 == ErrCachedPhantom ==> true
 
 //@ func (blt *CachedLivenessTester) phantomLookup(addr string, port uint16) (bool, error)
